@@ -252,6 +252,12 @@ struct Result {
 };
 static Result g_res;
 static RunInfo g_info;
+static int64_t g_wall_start_ns = 0;
+static int64_t real_now_ns() {
+    struct timespec ts;
+    __real_clock_gettime(CLOCK_MONOTONIC, &ts);
+    return static_cast<int64_t>(ts.tv_sec) * 1000000000LL + ts.tv_nsec;
+}
 
 static inline void hash_mix(uint64_t& h, uint64_t v) {
     for (int i = 0; i < 8; ++i) {
@@ -289,6 +295,10 @@ void note(const std::string& s) {
     if (g_res.notes.size() < 4000) { g_res.notes += s; g_res.notes += "; "; }
 }
 void set_sample(const std::string& j) { g_res.sample = j; }
+void debug(const std::string& s) {
+    static const bool verbose = __real_getenv("VERIF_VERBOSE") != nullptr;
+    if (verbose) { fprintf(stderr, "[verif] %s\n", s.c_str()); }
+}
 void set_nontrivial(bool v) { g_res.nontrivial_override = v ? 1 : 0; }
 int current_thread() { return t_self ? t_self->id : 0; }
 void name_thread(const char* role) {
@@ -333,6 +343,8 @@ static void print_result_line(bool fatal_flag) {
     bool nontrivial = g_choice_points > 0 || !g_res.faults.empty();
     if (g_res.nontrivial_override >= 0) { nontrivial = g_res.nontrivial_override == 1; }
     o += nontrivial ? ",\"nontrivial\":true" : ",\"nontrivial\":false";
+    snprintf(b, sizeof(b), ",\"wall_us\":%" PRId64, (real_now_ns() - g_wall_start_ns) / 1000); // informational only, never hashed
+    o += b;
     auto dump_map = [&](const char* key, const std::map<std::string, uint64_t>& m) {
         o += ",\"";
         o += key;
@@ -431,10 +443,7 @@ static bool enabled(const Th* t) {
         case BLK_CV: return (t->signaled || (t->timed && g_now >= t->deadline)) && t->mtx->owner == -1;
         case BLK_FUTEX: return t->signaled || (t->timed && g_now >= t->deadline);
         case BLK_JOIN: return g_ths[static_cast<size_t>(t->join_target)]->st == DONE;
-        case BLK_ONCE: {
-            auto it = g_once.find(t->obj);
-            return it == g_once.end() || it->second.st != ONCE_RUNNING;
-        }
+        case BLK_ONCE: return g_once.find(t->obj) == g_once.end();
         case BLK_SLEEP: return g_now >= t->deadline;
         case DONE: return false;
     }
@@ -939,26 +948,22 @@ static long sim_futex(int* addr, int op, int val, const struct timespec* timeout
 // pthread_once
 
 static int sim_once(pthread_once_t* ctrl, void (*init)(void)) {
+    // The control word itself says NEW (0) or DONE (2); only "running in thread t" lives in the model, so
+    // that a new once_flag at a recycled heap address is never mistaken for a completed one.
     lockG();
     Th* me = t_self;
     log_op(13, ctrl);
     for (;;) {
-        auto it = g_once.find(ctrl);
-        if (it == g_once.end()) {
-            if (*reinterpret_cast<volatile int*>(ctrl) == 2) { // completed outside the simulation
-                unlockG();
-                return 0;
-            }
-            it = g_once.emplace(ctrl, OnceRec{}).first;
-        }
-        OnceRec& r = it->second;
-        if (r.st == ONCE_DONE) {
+        if (*reinterpret_cast<volatile int*>(ctrl) == 2) {
             unlockG();
             return 0;
         }
-        if (r.st == ONCE_NEW) {
+        auto it = g_once.find(ctrl);
+        if (it == g_once.end()) {
+            OnceRec r;
             r.st = ONCE_RUNNING;
             r.owner = me->id;
+            g_once.emplace(ctrl, r);
             break;
         }
         // running in another thread: block
@@ -975,13 +980,13 @@ static int sim_once(pthread_once_t* ctrl, void (*init)(void)) {
         init();
     } catch (...) {
         lockG();
-        g_once[ctrl].st = ONCE_NEW;
+        g_once.erase(ctrl);
         unlockG();
         throw;
     }
     lockG();
-    g_once[ctrl].st = ONCE_DONE;
     *reinterpret_cast<volatile int*>(ctrl) = 2;
+    g_once.erase(ctrl);
     unlockG();
     return 0;
 }
@@ -1068,6 +1073,7 @@ int worker_main(int argc, char** argv, const RunFn& run_fn) {
         g_info = info;
         g_res = Result{};
         g_tape.reset_replay();
+        g_wall_start_ns = real_now_ns();
         g_hash = 1469598103934665603ULL; g_sig = g_hash; g_steps = 0; g_event_seq = 0; g_choice_points = 0; g_max_enabled = 0; g_switches = 0; g_now = 0;
         run_fn(info);
         if (g_active) { end_run(); }
@@ -1081,6 +1087,7 @@ int worker_main(int argc, char** argv, const RunFn& run_fn) {
         g_info = info;
         g_res = Result{};
         g_tape.reset_explore(info.seed, info.index);
+        g_wall_start_ns = real_now_ns();
         g_hash = 1469598103934665603ULL; g_sig = g_hash; g_steps = 0; g_event_seq = 0; g_choice_points = 0; g_max_enabled = 0; g_switches = 0; g_now = 0;
         if (g_tape.record_fd >= 0) {
             char b[64];
